@@ -241,7 +241,20 @@ def run_b(run, P):
 
         def key_fn(e):
             return tuple(sorted((k, v[0], v[1]) for k, v in e.ts.items() if k.startswith('wrap:')))
-        ctx = solve(f, Env(), on_event, None, keys, R, key_fn=key_fn)
+        def on_branch(b, s, env, ctx):
+            # `A op K - B` says the same as `(B + A) op K`: record the sum form, which is what the range guard (ii) looks for
+            c = strip((b.get('term') or {}).get('cond'))
+            if not (isinstance(c, dict) and c.get('k') == 'bin' and c.get('op') in ('>', '>=', '<', '<=') and len(b['succ']) == 2):
+                return env
+            r = strip(c['r'])
+            if isinstance(r, dict) and r.get('k') == 'bin' and r.get('op') == '-' and const_int(r['l']) is not None and const_int(c['l']) is None:
+                e = env.copy()
+                truth = s == b['succ'][0]
+                for x, y in ((r['r'], c['l']), (c['l'], r['r'])):
+                    e.atoms['((%s+%s)%s%d)' % (key(x), key(y), c['op'], const_int(r['l']))] = truth
+                return e
+            return env
+        ctx = solve(f, Env(), on_event, None, keys, R, key_fn=key_fn, on_branch=on_branch)
         run.stats['width_solver_steps'] += ctx.steps
     for n, why in SCOPE_B_EXCEPTIONS.items():
         run.notes.append('R-WIDTH(b) exception %s: %s' % (n, why))
@@ -440,3 +453,41 @@ def run_e(run, P, units=None):
     run.stats['width_64bit_differences_stored'] = nd
     run.stats['width_64bit_differences_narrowed'] = n
     run.require(nd >= 1 or run.fixture_mode or run.cfg != 'base', 'R-WIDTH(e): no stored difference of a 64-bit record field found any more (expected oscore_validate_sender_seq: shift)')
+
+
+def run_f(run, P, units=None):
+    """R-WIDTH (f): an explicit narrowing cast binds tighter than a shift.  `(uint8_t)(x - 269) >> 8` first cuts the value down to 8 bits
+    and then shifts all of them out: the expression is 0 whatever x is, where `(uint8_t)((x - 269) >> 8)` -- the high byte -- was meant.
+    Every right shift by a constant K whose left operand is (below the implicit promotions) an explicit cast to an unsigned type of at
+    most K bits is reported: in an encoder it writes 0 for the high byte of a length or delta, so every value >= 256 above the bias is
+    encoded as a smaller one."""
+    run.rule('R-WIDTH')
+    n = nbad = 0
+    seen = set()
+    for f in sorted(P.lib_funcs(), key=lambda f: f['name']):
+        if units and f['unit'] not in units:
+            continue
+        for b, ev in P.events(f):
+            for t in walk(ev['e']):
+                if not (isinstance(t, dict) and t.get('k') == 'bin' and t.get('op') == '>>' and const_int(t['r']) is not None and const_int(t) is None):
+                    continue
+                K = const_int(t['r'])
+                l = t['l']
+                while isinstance(l, dict) and l.get('k') == 'cast' and not l.get('ex'):
+                    l = l.get('e')
+                if not (isinstance(l, dict) and l.get('k') == 'cast' and l.get('ex') and l.get('w') and not l.get('s')):
+                    continue
+                k2 = (ev['loc'], short(t))
+                if k2 in seen:
+                    continue
+                seen.add(k2)
+                n += 1
+                ok = l['w'] > K
+                run.oblige('R-WIDTH', ok, '%s:shift-keeps-bits' % f['name'])
+                if not ok:
+                    nbad += 1
+                    run.violation('R-WIDTH', f['name'], ev['loc'], 'cast-before-shift:%s' % short(t)[:40].replace(' ', ''),
+                                  '`%s` casts to %s (%d bits) BEFORE shifting right by %d: every bit is shifted out and the expression is always 0 -- the cast was meant '
+                                  'to apply to the shifted value (the high byte of a length / delta is written as 0)' % (short(t)[:60], l.get('t'), l['w'], K), [])
+    run.instance('R-WIDTH', 'right shifts of explicitly narrowed values keep at least one bit: %d site(s)' % n)
+    run.stats['width_cast_then_shift_sites'] = n
